@@ -267,7 +267,9 @@ var dlTypes = []tg.StorageFileTypeClass{
 	&tg.StorageFileJpeg{}, &tg.StorageFilePng{}, &tg.StorageFileUnknown{}, &tg.StorageFilePartial{}, &tg.StorageFileMp4{}, &tg.StorageFilePdf{},
 }
 
-var dlParts = []int{4 * kib, 8 * kib, 16 * kib, 32 * kib, 64 * kib, 128 * kib, 256 * kib, 512 * kib, 1 * mib}
+// WithPartSize documents "divisible by 4KB" and nothing else: sizes that do not divide 1 MiB are in
+// the domain (seeded change C33d needs one, with a file that crosses a 1 MiB boundary).
+var dlParts = []int{4 * kib, 8 * kib, 16 * kib, 32 * kib, 64 * kib, 128 * kib, 256 * kib, 512 * kib, 1 * mib, 12 * kib, 160 * kib, 384 * kib, 768 * kib}
 
 type dlOutcome struct {
 	Retries int
